@@ -170,3 +170,91 @@ Definition law_rt_list (rl : rlist) (r : res) (mt : Z) (rl' : rlist) : bool :=
     | CCountQuota | CIgnoredDev | CDropped => bool_decide (rl' !! k = None) && bool_decide (scm r !! k = None)
     end)
   (cpu_name :: mem_name :: pods_name :: keys_list rl ++ keys_list rl' ++ keys_list (scm r)).
+
+(* ---- buildTaskDRAInfo (the scheduler cache building TaskInfo.DRAResreq) ---- *)
+Definition dRaw : dec rawreq :=
+  let* k := dZ in let* c := dPos in let* n := dZ in let* caps := dZmap in ret (mkRaw k c n caps).
+Definition dClaims : dec (gmap positive (list rawreq)) :=
+  let* l := dList (dPair dPos (dList dRaw)) in ret (list_to_map l : gmap positive (list rawreq)).
+Definition dPerClaim : dec (gmap positive dmap) :=
+  let* l := dList (dPair dPos dDmap) in ret (list_to_map l : gmap positive dmap).
+Definition dBuildInput : dec (gmap positive (list rawreq) * list positive) := dPair dClaims (dList dPos).
+
+Definition eBuild (b : build_result) : list Z :=
+  match b with
+  | BuildPanic => [-1]
+  | BuildError => [-2]
+  | BuildOk None => [0]
+  | BuildOk (Some (r, per)) =>
+    1 :: eDmap r ++ [-101] ++ eList (fun kv => Zpos (fst kv) :: eDmap (snd kv)) (sort_kv (map_to_list per))
+  end.
+
+Definition dBuildGot : dec (option (dmap * gmap positive dmap)) :=
+  let* f := dZ in
+  if f =? 0 then ret None
+  else let* r := dDmap in let* _t := dZ in let* per := dPerClaim in ret (Some (r, per)).
+
+Definition cap_products (c dim : positive) (rqs : list ereq) : list Z :=
+  flat_map (fun rq => if bool_decide (e_class rq = c)
+                      then match e_caps rq !! dim with Some v => [v * e_count rq] | None => [] end
+                      else []) rqs.
+
+(* m is what accumulating the requests rqs must give: per device class the count is
+   min(MaxInt64, exact sum) and never negative; capacities are exact sums of capacity * count *)
+Definition check_dra_map (m : dmap) (rqs : list ereq) : bool :=
+  forallb (fun c =>
+    let cs := class_counts c rqs in
+    let g := m !! c in
+    Bool.eqb (is_some g) (negb (bool_decide (cs = []))) &&
+    (if forallb (fun x => bool_decide (0 <= x)) cs
+     then bool_decide (0 <= count_of g) && zeqb (count_of g) (Z.min max64 (sum_list cs))
+     else true) &&
+    forallb (fun dim => zeqb (cap_of g dim) (sum_list (cap_products c dim rqs)))
+            (flat_map (fun rq => keys_list (e_caps rq)) rqs ++
+             match g with Some d => keys_list (d_caps d) | None => [] end))
+  (map e_class rqs ++ keys_list m).
+
+Definition law_task_dra (claims : gmap positive (list rawreq)) (refs : list positive)
+           (got : option (dmap * gmap positive dmap)) : bool :=
+  let eff c := effective_all (default [] (claims !! c)) in
+  let distinct := remove_dups refs in
+  match got with
+  | None => forallb (fun c => bool_decide (eff c = [])) distinct
+  | Some (r, per) =>
+    check_dra_map r (flat_map eff distinct) &&
+    forallb (fun c => match per !! c with
+                      | Some m => check_dra_map m (eff c) && negb (bool_decide (eff c = []))
+                      | None => bool_decide (eff c = [])
+                      end) distinct &&
+    forallb (fun c => bool_decide (c ∈ refs)) (keys_list per)
+  end.
+
+(* ---- ResFloat642Quantity / ResQuantity2Float64 on the implementation's results ---- *)
+
+(* t is x/g truncated toward zero *)
+Definition trunc_of (g x t : Z) : bool :=
+  if bool_decide (0 <= x) then bool_decide (g * t <= x) && bool_decide (x < g * t + g)
+  else bool_decide (g * t - g < x) && bool_decide (x <= g * t).
+
+(* the float64 value mant * 2^e equals the integer v — exactly *)
+Definition float_is (mant e v : Z) : bool :=
+  if bool_decide (0 <= e) then zeqb (mant * 2 ^ e) v else zeqb mant (v * 2 ^ (- e)).
+
+(* float x/g --ResFloat642Quantity--> q (milli) --ResQuantity2Float64--> the float mant*2^e, which
+   must be the whole number t of units x/g truncates to *)
+Definition law_f2q2f (g : Z) (is_cpu : bool) (x q mant e : Z) : bool :=
+  let t := if is_cpu then q else q / 1000 in
+  (is_cpu || zeqb (q mod 1000) 0) && trunc_of g x t && float_is mant e t.
+
+(* quantity m (milli) --ResQuantity2Float64--> float mant*2^e --ResFloat642Quantity--> back (milli) *)
+Definition law_q2f2q (m : Z) (is_cpu : bool) (mant e back : Z) : bool :=
+  if is_cpu then float_is mant e m && zeqb back m
+  else zeqb (back mod 1000) 0 && whole_up m back && float_is mant e (back / 1000).
+
+(* ---- consistency of the strict / non-strict, total / partial comparisons under one convention;
+        rl = rr.Less(r, d) ---- *)
+Definition law_partial (less lesseq lp lep rl : bool) : bool :=
+  implb lp lep && implb lesseq lep && implb less lp && implb (negb lep) rl.
+
+(* Resource.Sub panics exactly when its argument is not LessEqual (Zero convention) the receiver *)
+Definition law_sub_assert (panicked rr_le_r : bool) : bool := Bool.eqb panicked (negb rr_le_r).
